@@ -137,6 +137,7 @@ def order_typing():
 
 
 OWN_CLASSES = set()
+MUTABLE_CLASSES = set()
 
 
 def persistent_state():
@@ -144,10 +145,32 @@ def persistent_state():
         problems = []
         global OWN_CLASSES
         OWN_CLASSES = set()
+        global MUTABLE_CLASSES
+        MUTABLE_CLASSES = set()
+        bases = {}
         for path in FILES:
             for n in ast.walk(ast.parse(open(path).read())):
                 if isinstance(n, ast.ClassDef):
                     OWN_CLASSES.add(n.name)
+                    bases[n.name] = [ast.unparse(b).split(".")[-1] for b in n.bases]
+                    for fn in n.body:
+                        if isinstance(fn, ast.FunctionDef) and fn.name != "__init__":
+                            for sub in ast.walk(fn):
+                                tg = sub.targets if isinstance(sub, ast.Assign) else [sub.target] if isinstance(sub, (ast.AugAssign, ast.AnnAssign)) else []
+                                for t in tg:
+                                    base = t.value if isinstance(t, ast.Subscript) else t
+                                    if isinstance(base, ast.Attribute) and ast.unparse(base).startswith("self."):
+                                        MUTABLE_CLASSES.add(n.name)
+                                if isinstance(sub, ast.Call) and isinstance(sub.func, ast.Attribute) and ast.unparse(sub.func.value).startswith("self.") \
+                                        and sub.func.attr in ("append", "extend", "add", "update", "pop", "clear", "insert", "remove", "setdefault"):
+                                    MUTABLE_CLASSES.add(n.name)
+        changed = True
+        while changed:
+            changed = False
+            for c, bs in bases.items():
+                if c not in MUTABLE_CLASSES and any(b in MUTABLE_CLASSES for b in bs):
+                    MUTABLE_CLASSES.add(c)
+                    changed = True
         for path in FILES:
             tree = ast.parse(open(path).read())
             fname = os.path.basename(path)
@@ -167,7 +190,13 @@ def persistent_state():
                     if fn in ("set", "list", "dict", "bytearray", "defaultdict", "OrderedDict", "deque", "Counter"):
                         return "a mutable container"
                     if fn in OWN_CLASSES:
-                        return "an instance of %s" % fn
+                        # only objects some method can modify after construction (statements collect hoisted calls, functional
+                        # expressions get a result variable, literals have setters ...) - directly or through a part
+                        if fn in MUTABLE_CLASSES:
+                            return "an instance of %s (modifiable after construction)" % fn
+                        for sub in ast.walk(v):
+                            if sub is not v and isinstance(sub, ast.Call) and ast.unparse(sub.func).split(".")[-1] in MUTABLE_CLASSES:
+                                return "an instance of %s holding a modifiable %s" % (fn, ast.unparse(sub.func).split(".")[-1])
                 return None
             for st in tree.body:
                 if isinstance(st, (ast.Assign, ast.AnnAssign)) and st.value is not None:
